@@ -184,6 +184,19 @@ def r2_fences(ctx):
                         res = [x for x in calls_in(broad) if callee_last(x) == "CoreCheckResult"]
                         if not res:
                             probs.append("the broad handler builds no CoreCheckResult")
+                        # the handler itself must not be able to raise on an exception without arguments
+                        for sub in ast.walk(broad):
+                            if isinstance(sub, ast.Subscript) and isinstance(sub.value, ast.Attribute) and sub.value.attr == "args" \
+                                    and isinstance(sub.value.value, ast.Name) and sub.value.value.id == broad.name:
+                                guarded = False
+                                q = parent(sub)
+                                while q is not None and q is not broad:
+                                    if isinstance(q, (ast.IfExp, ast.If)) and "args" in txt(q.test):
+                                        guarded = True
+                                    q = parent(q)
+                                if not guarded:
+                                    probs.append(f"`{txt(sub)}` is read without testing len({broad.name}.args): a check raising an exception "
+                                                 "without arguments makes the handler itself raise IndexError")
                         for x in res:
                             p = kw(x, "passed")
                             if not (isinstance(p, ast.Constant) and p.value is False):
